@@ -569,3 +569,32 @@ func OpenAIModels(names ...string) []byte {
 	sb.WriteString(`]}`)
 	return []byte(sb.String())
 }
+
+// ModelsFor renders a model listing in the format the given endpoint type's parser expects.
+func ModelsFor(typ string, names ...string) []byte {
+	switch typ {
+	case "ollama":
+		var sb strings.Builder
+		sb.WriteString(`{"models":[`)
+		for i, n := range names {
+			if i > 0 {
+				sb.WriteByte(',')
+			}
+			fmt.Fprintf(&sb, `{"name":%q,"model":%q,"modified_at":"2024-01-01T00:00:00Z","size":1000,"digest":"sha256:%064d","details":{"family":"llama","parameter_size":"7B","quantization_level":"Q4_0"}}`, n, n, i+1)
+		}
+		sb.WriteString(`]}`)
+		return []byte(sb.String())
+	case "lm-studio", "lmstudio":
+		var sb strings.Builder
+		sb.WriteString(`{"object":"list","data":[`)
+		for i, n := range names {
+			if i > 0 {
+				sb.WriteByte(',')
+			}
+			fmt.Fprintf(&sb, `{"id":%q,"object":"model","type":"llm","publisher":"verif","arch":"llama","state":"loaded","max_context_length":4096}`, n)
+		}
+		sb.WriteString(`]}`)
+		return []byte(sb.String())
+	}
+	return OpenAIModels(names...)
+}
